@@ -10,7 +10,8 @@ container that comes back are compared with a plain-Python reference (lists of f
 
 Second grid: malformed additions (duplicate / non-string identifier, unsupported value type, mixed list,
 shape inconsistent with earlier entries) must raise LeaspyIndividualParamsInputError, leave the container
-untouched and not poison later valid additions.
+untouched and not poison later valid additions -- whatever route built the container (additions only, load(json) with
+each save option, load(csv), from_dataframe, from_pytorch, re-adding, subset).
 
 Third grid: containers that start from a hand-built table (`from_dataframe`) or from tensors
 (`from_pytorch`) instead of `add_individual_parameters`.
@@ -232,6 +233,8 @@ def features(ip):
                     f.add("numpy_scalar")
     if list(ip._individual_parameters) != list(ip._indices):
         f.add("dict_order_differs")
+    if any(len(tuple(s)) == 1 and tuple(s)[0] > 10 for s in shapes.values()):
+        f.add("long_vector")
     return f
 
 
@@ -430,6 +433,8 @@ def feature_for(site, kind, feats, coarse_txt):
         return "identifier that pandas reads as a missing value (NA, nan, null, None, empty)"
     if site == "load(csv)" and kind == "value differs in the last float64 digits":
         return "float64 value written with 16-17 significant digits"
+    if "long_vector" in feats and site in ("from_dataframe", "load(csv)") and kind == "value changed":
+        return "vector parameter with more than 10 components (two-digit column suffixes)"
     if "dict_order_differs" in feats and kind in ("value changed", "identifiers changed", "shape changed"):
         return "container whose internal dict order differs from its identifier list (e.g. loaded from JSON saved with sort_keys=True)"
     return coarse_txt
@@ -680,6 +685,8 @@ def build_start(spec):
                 ref["vals"][i][n] = [float(_slot(spec, i_k * total + off + c)[0]) for c in range(s)]
         if spec["colorder"] == "reversed":
             cols = cols[::-1]
+        elif spec["colorder"] == "lexicographic":  # what `df.sort_index(axis=1)` gives: p_0, p_1, p_10, p_11, p_2 ...
+            cols = sorted(cols, key=lambda c: c[0])
         df = pd.DataFrame({c: v for c, v in cols}, index=pd.Index(list(ids), name="ID"))
         try:
             ip = call("from_dataframe", IP.from_dataframe, df)
@@ -806,8 +813,20 @@ def _valid_entry(names, shapes, k):
     return d, rv
 
 
-def reject_cases(tier):
-    """JSON-able descriptors of malformed additions: (base, number of valid entries before, malformation)."""
+# construction routes a container may come from before the malformed addition is tried ("add" = built by additions only)
+ROUTES = ["json", "json_sorted", "json_compact", "csv", "df", "torch", "dict", "subset", "subset_nocopy"]
+ROUTE_NAMES = {"json": "load(json)", "json_sorted": "load(json)", "json_compact": "load(json)", "csv": "load(csv)",
+               "df": "from_dataframe", "torch": "from_pytorch", "dict": "re-adding its entries", "subset": "subset",
+               "subset_nocopy": "subset"}
+
+
+def reject_cases(tier, route=None):
+    """JSON-able descriptors of malformed additions: (base, number of valid entries before, [route], malformation).
+    route None = every route."""
+    if route is None:
+        return [c for r in ["add"] + ROUTES for c in reject_cases(tier, r)]
+    if route != "add":
+        return [dict(c, route=route) for c in reject_cases(tier, "add") if "entry" not in c and c["before"] > 0]
     out = []
     for b_k, (names, shapes) in enumerate(REJECT_BASES):
         for n_before in (0, 1, 2):
@@ -838,10 +857,16 @@ def reject_cases(tier):
     return out
 
 
-def run_reject(case):
+def run_reject(case, tmp=None):
     """-> (violations, outcome label)"""
     if "entry" in case:
         return _run_reject_constructor(case)
+    if tmp is None:
+        tmp = tempfile.mkdtemp(prefix="c16_", dir="/var/tmp")
+        try:
+            return run_reject(case, tmp)
+        finally:
+            shutil.rmtree(tmp, ignore_errors=True)
     names, shapes = REJECT_BASES[case["base"]]
     ip = IP()
     ref = new_ref([], names, [tuple(s) for s in shapes])
@@ -851,6 +876,26 @@ def run_reject(case):
         ip.add_individual_parameters(i, d)
         ref["ids"].append(i)
         ref["vals"][i] = rv
+    route = case.get("route", "add")
+    if route != "add":
+        # the container under test comes out of a conversion / copy of the one built above
+        if route in ("subset", "subset_nocopy"):
+            try:
+                ip = call("subset", ip.subset, list(ids_before), copy=(route == "subset"))
+            except Impl as e:
+                kind = type(e.exc).__name__
+                return [(f"subset|{kind}|{coarse(None, len(ids_before))}", str(e.exc)[:200], "succeeds", kind)], f"route {route}:{kind}"
+            diffs = compare_container(ip, ref, False)
+            if diffs:
+                kind, msg, exp, obs = diffs[0]
+                return [(f"subset|{kind}|{coarse(None, len(ids_before))}", msg, exp, obs)], f"route {route}:{kind}"
+        else:
+            ip, ref, viols, label = apply_step(route, ip, ref, tmp)
+            if ip is None:
+                return viols, f"route {label}"
+        shapes = [list(ip._parameters_shape[n]) for n in names]
+        if case["mal"] == "shape" and list(case["what"]) == shapes[case["slot"]]:
+            return [], "shape not inconsistent after this route (scalar came back as length 1)"
     good, _ = _valid_entry(names, shapes, 5)
     mal = case["mal"]
     idx, params, cls = "new", dict(good), mal
@@ -878,6 +923,8 @@ def run_reject(case):
         cls = "shape inconsistent with earlier entries"
     else:
         raise ValueError(mal)
+    if route != "add":
+        cls = f"{cls} (container built by {ROUTE_NAMES[route]})"
     before = state_key(ip)
     out = []
     try:
@@ -1011,6 +1058,31 @@ def other_start_specs(tier, ids, names=None):
                                "suffix1": suffix1, "offset": off, "vset": vset}
 
 
+LONG_SIZES = [11, 12]  # two-digit component suffixes (p_10 sorts before p_2 as text)
+
+
+def long_specs(tier):
+    """Vector parameters with more than 10 components: one value type, few namings / identifier lists."""
+    vset = tier
+    id_lists = [["a"], ["z", "y", "x"]] if tier == "quick" else [["a"], ["z", "y", "x"], ["10", "9", "100", "2"]]
+    namings = [["sources"], ["xi", "sources"]]
+    offsets = [0, 3] if tier == "quick" else list(range(len(VALUES[vset])))
+    for ids in id_lists:
+        for names in namings:
+            for n in LONG_SIZES:
+                shapes = [[1]] * (len(names) - 1) + [[n]]
+                sizes = [1] * (len(names) - 1) + [n]
+                for off in offsets:
+                    for vtyp in ("list_float", "ndarray_f64"):
+                        yield {"start": "add", "ids": ids, "names": names, "shapes": shapes, "styp": None, "vtyp": vtyp,
+                               "offset": off, "vset": vset, "rot": 1 if len(ids) > 1 and len(names) > 1 else 0}
+                    yield {"start": "pytorch", "ids": ids, "names": names, "sizes": sizes, "dtype": "float32",
+                           "oned": False, "offset": off, "vset": vset}
+                    for colorder in TABLE_START_COLUMN_ORDERS + ("lexicographic",):
+                        yield {"start": "dataframe", "ids": ids, "names": names, "sizes": sizes, "colorder": colorder,
+                               "suffix1": False, "offset": off, "vset": vset}
+
+
 def _depth(tier):
     return 4 if tier == "quick" else 6
 
@@ -1033,12 +1105,16 @@ def bounds(tier):
         "accessors_read_on_every_distinct_container": "to_dataframe, to_pytorch, items, subset (reversed with/without copy, first only, rotated), "
                                                       "get_aggregate(identity) as a multiset, get_mean, get_std",
         "other_starts": "from_pytorch (float32/float64, 2-D and 1-D), from_dataframe (canonical / reversed column order, p or p_0 for size 1), sizes {1,2,3}",
-        "malformed_additions": f"{len(reject_cases(tier))} (bases x 0..2 valid entries before x malformation x slot)",
+        "malformed_additions": f"{len(reject_cases(tier))} (bases x 0..2 valid entries before x malformation x slot x construction "
+                               f"route of the container: additions only, {', '.join(ROUTES)})",
+        "long_vectors": f"sizes {LONG_SIZES} (namings [sources], [xi, sources]; list / ndarray / tensor / hand-built table in canonical, "
+                        "reversed and lexicographic column order) through every conversion step",
     }
 
 
 def shards(tier, seed):
-    out = [{"kind": "reject"}]
+    out = [{"kind": "reject", "route": r} for r in ["add"] + ROUTES]
+    out.append({"kind": "long"})
     for names in sorted(NAMINGS[tier], key=len):
         for ids in ID_LISTS[tier]:
             for s in SHAPES:
@@ -1059,15 +1135,18 @@ def run_shard(shard):
     tmp = tempfile.mkdtemp(prefix="c16_", dir="/var/tmp")
     try:
         if shard["kind"] == "reject":
-            for case in reject_cases(tier):
+            for case in reject_cases(tier, shard.get("route", "add")):
                 acc.evaluation()
-                viols, label = run_reject(case)
+                viols, label = run_reject(case, tmp)
                 acc.outcome(label)
                 acc.nontriv(("reject", case))
                 if case == {"base": 3, "before": 1, "mal": "shape", "what": [1], "slot": 0}:
                     acc.sample({"malformed addition": case, "base": REJECT_BASES[3], "outcome": label})
                 for sig, msg, exp, obs in viols:
                     acc.violation(sig, msg, {"kind": "reject", "case": case}, exp, obs)
+        elif shard["kind"] == "long":
+            for spec in long_specs(tier):
+                explore(spec, _depth(tier), acc, tmp)
         elif shard["kind"] == "other":
             for spec in other_start_specs(tier, shard["ids"], shard.get("names")):
                 explore(spec, _depth(tier), acc, tmp)
